@@ -37,11 +37,91 @@ def all_ids(prog):
     return out
 
 
-def load_known():
+def fingerprint(f):
+    """(signature, callee names) of a function: enough to recognise it again after a rename"""
+    sig = [f.tystr(f.raw["locals"][i]) for i in range(0, f.argc + 1)]
+    callees = set()
+    for bb in f.blocks:
+        t = bb["t"]
+        if t["k"] == "call":
+            r = t.get("res") if t.get("res") is not None else t.get("raw")
+            if r is not None:
+                callees.add(f.dinfo(r)["name"])
+    return {"sig": sig, "callees": sorted(callees)}
+
+
+def resolve_renamed(prog):
+    """A known function of marginfi / the type crate that is missing by name, while exactly one function that is *not* known has the same
+    self type, the same signature and (nearly) the same callees, was renamed: the new function gets the reviewed name back as an alias so
+    that every name-anchored rule keeps looking at it (its content is still checked by those rules).  Returns {old id: new name}."""
+    d = _load()
+    if not d or not d.get("prints"):
+        return {}
+    known = set(d["fns"])
+    known_names = {tuple(x.split("|")[:3]) for x in known}
+    live = {}
+    fresh = []
+    for k, f in prog.fns.items():
+        if f.info["kind"] == "Closure" or "{closure#" in k or f.info["crate"] not in ANALYSED or "::tests::" in k:
+            continue
+        fid = fn_id(f)
+        live[tuple(fid.split("|")[:3])] = f
+        if fid not in known and tuple(fid.split("|")[:3]) not in known_names:
+            fresh.append(f)
+    out = {}
+    if not fresh:
+        return out
+    fps = {f.key: fingerprint(f) for f in fresh}
+    used = set()
+    for fid, fp in sorted(d["prints"].items()):
+        crate, sa, name = fid.split("|")[:3]
+        if (crate, sa, name) in live:
+            continue
+        cands = []
+        for g in fresh:
+            if g.key in used or g.info["crate"] != crate or (g.info.get("self_adt") or "").split("::")[-1] != sa:
+                continue
+            gp = fps[g.key]
+            if gp["sig"] != fp["sig"]:
+                continue
+            a, b = set(gp["callees"]), set(fp["callees"])
+            jac = (len(a & b) / len(a | b)) if (a | b) else 1.0
+            if jac >= 0.7:
+                cands.append((jac, g))
+        if len(cands) == 1:
+            g = cands[0][1]
+            used.add(g.key)
+            out[fid] = g.name
+            for c in prog.crates.values():
+                for dd in c.defs:
+                    if dd.get("key") == g.key:
+                        dd["alias_of"] = dd.get("name")
+                        dd["name"] = name
+    return out
+
+
+def _load():
     try:
-        return set(json.load(open(KNOWN_FILE)))
+        d = json.load(open(KNOWN_FILE))
     except Exception:
         return None
+    if isinstance(d, list):
+        d = {"fns": d, "adts": []}
+    return d
+
+
+def load_known():
+    d = _load()
+    return set(d["fns"]) if d else None
+
+
+def new_adts(prog):
+    """ADTs of the analysed crates that did not exist on the reviewed tree (e.g. a small struct introduced to name a tuple)"""
+    d = _load()
+    if not d or not d.get("adts"):
+        return set()
+    known = set(d["adts"])
+    return {k for k, a in prog.adts.items() if k.split("::")[0] in ANALYSED and k not in known}
 
 
 def _place(pl, lm):
@@ -250,3 +330,50 @@ def inline_new_functions(prog, known=None, max_blocks=400):
     prog._writes_direct = {}
     prog._writes_trans = {}
     return done
+
+
+# ----------------------------------------------------------------------------------------------------------------------------
+# "deep" form of one function: a clone with the bodies of its analysed-crate callees spliced in (bounded depth).  Two versions of a
+# function that differ only in where the helper boundaries are (a helper extracted, inlined, merged or split) have the same deep form.
+
+_DEEP_MEMO = {}
+
+
+def deep_fn(prog, f, depth=2, max_blocks=160, _stack=frozenset()):
+    from . import model, analysis
+    key = (id(prog), f.key, depth)
+    if key in _DEEP_MEMO:
+        return _DEEP_MEMO[key]
+    raw = copy.deepcopy({k: v for k, v in f.raw.items()})
+    g = model.Fn(f.crate, raw)
+    g.inl_err_locals = set(f.inl_err_locals or ()) or None
+    n0 = len(g.blocks)
+    if depth > 0:
+        for b in range(n0):
+            t = g.blocks[b]["t"]
+            if t["k"] != "call":
+                continue
+            ck = _callee_key(g, t)
+            c = prog.fns.get(ck)
+            if c is None or ck == f.key or ck in _stack or c.info["kind"] == "Closure" or c.info["crate"] != f.info["crate"] or c.info["crate"] not in ANALYSED:
+                continue
+            if len(c.blocks) > max_blocks or len(t["args"]) != c.argc or t.get("dest") is None:
+                continue
+            cd = deep_fn(prog, c, depth - 1, max_blocks, _stack | {f.key})
+            if len(g.blocks) + len(cd.blocks) > 900:
+                continue
+            dest = t["dest"]
+            try:
+                propagated = (dest["l"] == 0 and not dest.get("p")) or bool(analysis.consumed(g, b)[0])
+            except Exception:
+                propagated = False
+            saved = (copy.deepcopy(g.blocks[b]), list(g.raw["locals"]), dict(g.raw.get("names") or {}), len(g.blocks), g.inl_err_locals, g.inl_from)
+            try:
+                splice(g, b, cd, propagated)
+            except Exception:
+                g.blocks[b], g.raw["locals"], g.raw["names"] = saved[0], saved[1], saved[2]
+                del g.blocks[saved[3]:]
+                g.inl_err_locals, g.inl_from = saved[4], saved[5]
+                _reset(g)
+    _DEEP_MEMO[key] = g
+    return g
